@@ -119,7 +119,7 @@ void h_rans_header(void) {
   HARNESS_END();
 }
 
-/* rans.step.P (C08): one symbol with (prob, cum_prob), cum_prob + prob <= 2^P: rans_write keeps the state in range, emits <= 2 bytes;
+/* rans.step.P (C08): one symbol with (prob, cum_prob), cum_prob + prob <= 2^P: rans_write keeps the state in range, emits <= ceil(P/8) bytes (2 for P <= 16, 3 for P = 17..20);
  * the decoder's slot rem lies in [cum, cum+prob) and its update restores the writer's post-renormalisation state; absorbing the
  * emitted bytes restores the entry state. */
 void h_rans_step(void) {
@@ -132,7 +132,7 @@ void h_rans_step(void) {
   struct RAnsEncoder e; e.ans_.buf = buf; e.ans_.buf_offset = 0; e.ans_.state = state;
   struct rans_sym sym; sym.prob = prob; sym.cum_prob = cum;
   RAnsEncoder_rans_write(&e, &sym);
-  ASSERT(e.ans_.buf_offset >= 0 && e.ans_.buf_offset <= 2, "rans.step.at_most_two_bytes");
+  ASSERT(e.ans_.buf_offset >= 0 && e.ans_.buf_offset <= (RANS_P + 7) / 8, "rans.step.at_most_ceil_P_over_8_bytes");   /* state < 2^(P+10), loop exits below 2^10 * prob */
   ASSERT(e.ans_.state >= (uint32_t)l_rans_base && e.ans_.state < RD_TOP, "rans.step.writer_state_in_range");
   uint32_t quo = e.ans_.state / (uint32_t)rans_precision, rem = e.ans_.state % (uint32_t)rans_precision;   /* what rans_read extracts */
   ASSERT(rem >= cum && rem < cum + prob, "rans.step.slot_in_symbol_interval");
